@@ -2359,3 +2359,132 @@ def clustermap_five_clusters_meta(H):
 @op("colors", rand=True)
 def colors_hls_clusters(H):
     return pp.labels_to_colors_hls(np.array([1, 1, 1, 2, 2, 2, 3, 3, 3, 4, 4, 4, 5, 5, 5]), min_count=2)
+
+
+# =============================================================================================
+# option siblings: the SAME input under different option values (state keyed without an option meets its victim)
+# =============================================================================================
+@heap
+def df_raw_nonfunctional():
+    rows = [
+        ["TRAV8-5", "CAVKASGSRLT", "TRAJ1*01", "TRBV1", "CASSDRAQPQHF", "TRBJ1-1*01", "HLA-A*02:01", "B2M"],
+        ["TRAV26-1*01", "CIVRAPGRADMRF", "TRAJ43*01", "TRBV23-1", "CASSLGQAYEQYF", "TRBJ2-7*01", "HLA-DRA*01:01", "HLA-DRB1*01:01"],
+        ["TRAV20*01", "CAVPSGAGSYQLTF", "TRAJ28*01", "TRBV13*01", "CASSYLPGQGDHYSNQPQHF", "TRBJ1-5*01", "HLA-B*08:01", "B2M"],
+        ["TRAV1-1*01", "CAVKASGSRLT", "TRAJ8*01", "TRBV7-2*01", "CASSDWGSQNTLYF", "TRBJ2-4*01", "HLA-A*02", "B2M"],
+    ]
+    return pd.DataFrame(rows, columns=["TRAV", "CDR3A", "TRAJ", "TRBV", "CDR3B", "TRBJ", "MHCA", "MHCB"], index=[11, 12, 13, 14])
+
+
+@op("standardize")
+def standardize_nf_default(H):
+    return prs.standardize_dataframe(H["df_raw_nonfunctional"], suppress_warnings=True)
+
+
+@op("standardize")
+def standardize_nf_keep_nonfunctional(H):
+    return prs.standardize_dataframe(H["df_raw_nonfunctional"], tcr_enforce_functional=False, suppress_warnings=True)
+
+
+@op("standardize")
+def standardize_nf_allele(H):
+    return prs.standardize_dataframe(H["df_raw_nonfunctional"], tcr_precision="allele", suppress_warnings=True)
+
+
+@op("standardize")
+def standardize_nf_allele_keep(H):
+    return prs.standardize_dataframe(H["df_raw_nonfunctional"], tcr_precision="allele", tcr_enforce_functional=False,
+                                     mhc_precision="protein", suppress_warnings=True)
+
+
+@op("standardize")
+def standardize_nf_mouse(H):
+    return prs.standardize_dataframe(H["df_raw_nonfunctional"], species="MusMusculus", suppress_warnings=True)
+
+
+@op("standardize")
+def standardize_nf_mhc_allele(H):
+    return prs.standardize_dataframe(H["df_raw_nonfunctional"], mhc_precision="allele", suppress_warnings=True)
+
+
+@op("standardize")
+def standardize_nf_warnings_on(H):
+    return prs.standardize_dataframe(H["df_raw_nonfunctional"], strict_cdr3_standardization=True)
+
+
+@op("standardize")
+def standardize_raw_keep_nonfunctional(H):
+    return prs.standardize_dataframe(H["df_raw"], tcr_enforce_functional=False, suppress_warnings=True)
+
+
+@op("pcDelta")
+def pcDelta_option_siblings(H):
+    s = H["seqs_list"]
+    return [prs.pcDelta(s, bins=H["bins_arr"]), prs.pcDelta(s, bins=H["bins_arr"], normalize=False),
+            prs.pcDelta(s, bins=H["bins_arr"], pseudocount=0.5), prs.pcDelta(s, bins=6), prs.pcDelta(s, bins=H["bins_arr"], maxseqs=100)]
+
+
+@op("pcDelta")
+def pcDelta_siblings_unnormalised(H):
+    return prs.pcDelta(H["seqs_list"], bins=H["bins_arr"], normalize=False, pseudocount=2.0)
+
+
+@op("pcDelta")
+def pcDelta_siblings_pseudo(H):
+    return prs.pcDelta(H["seqs_list"], H["seqs_list2"], bins=H["bins_arr"], pseudocount=0.5)
+
+
+@op("entropy")
+def renyi_base_siblings(H):
+    return [prs.renyi2_entropy(H["df_stats"], "a", base=b) for b in (2.0, 10, np.e, None, 0.5)] + \
+           [prs.stdrenyi2_entropy(H["df_stats"], "a", base=b) for b in (2.0, 10, None)]
+
+
+@op("pc")
+def pc_conditional_weight_siblings(H):
+    return [prs.pc_conditional(H["df_stats"], "group", "a"), prs.pc_conditional(H["df_stats"], "group", "a", group_weights=H["weights_arr"]),
+            prs.pc_conditional(H["df_stats"], "group", "a", group_weights=[3.0, 1.0, 1.0]), prs.pc_conditional(H["df_stats"], "group", "b")]
+
+
+@op("graph")
+def graph_method_siblings(H):
+    return [prs.graph_clustering(H["triplets_arr"], H["nodes_list"], clustering=c)["cluster"].nunique() for c in ("cc", "fastgreedy", "DBSCAN")]
+
+
+@op("multimerge")
+def multimerge_how_siblings(H):
+    d = H["dfs_indexed"]
+    return [prs.multimerge(d, "index"), prs.multimerge(d, "index", how="inner"), prs.multimerge(d, "index", how="left"),
+            prs.multimerge(d, "index", suffixes=["a", "b"]), prs.multimerge(d, "index")]
+
+
+@op("rankfreq")
+def rankfrequency_option_siblings(H):
+    import matplotlib.pyplot as plt
+
+    out = []
+    for kw in (dict(), dict(normalize_x=False), dict(normalize_y=True), dict(log_x=False, log_y=False), dict(scalex=2.0, scaley=0.5)):
+        fig, ax = plt.subplots()
+        out.append(pp.rankfrequency(H["counts_arr"], ax=ax, **kw))
+    return out
+
+
+@op("db", post=sorted_list)
+def lookupdb_mode_siblings(H):
+    q = ["CAAF", "CDDD", "CAKA", "CAA", "CAAAK"]
+    return [sorted(H["lookup_db"].lookup(q, max_edits=1)), sorted(H["lookup_db"].lookup(q, max_edits=1, custom_distance="hamming")),
+            sorted(H["lookup_db"].lookup(["CAF", "CD"], max_edits=2)), sorted(H["lookup_db"].lookup(["CAF", "CD"], max_edits=1)),
+            sorted(H["lookup_db"].lookup(q, max_edits=1))]
+
+
+@op("db", post=sorted_list)
+def symdeldb_mode_siblings(H):
+    q = ["CAAF", "CDDD", "CAKA", "CAA", "CAAAK"]
+    return [sorted(H["symdel_db"].lookup(q)), sorted(H["symdel_db"].lookup(q, custom_distance="hamming")),
+            sorted(H["symdel_db"].lookup(q, custom_distance=cb_lev2, max_custom_distance=2)), sorted(H["symdel_db"].lookup(q))]
+
+
+@op("hclust")
+def hclust_kw_siblings(H):
+    s = H["seqs_list"]
+    return [prs.hierarchical_clustering(s)[1], prs.hierarchical_clustering(s, cluster_kws=dict(t=2, criterion="distance"))[1],
+            prs.hierarchical_clustering(s, linkage_kws=dict(method="single"))[1], prs.hierarchical_clustering(s)[1]]
